@@ -23,7 +23,8 @@ CONSTANTS Unreplayable            \* flow classes that cannot be replayed
 MonInit == [bad |-> <<>>, wit |-> {},
             pending |-> <<>>,     \* queued entries not yet begun: <<f, pre, bk>>
             cur |-> 0,            \* flow whose replay began last (0: none yet)
-            fin |-> TRUE]         \* ... and whether it has ended with a response or an error
+            fin |-> TRUE,         \* ... and whether it has ended with a response or an error
+            revcur |-> FALSE]     \* a stop reverted the flow in flight (it was queued once more): signature only
 
 ClsOf(ev, f) == ev.cls[CHOOSE j \in 1..Len(ev.flows) : ev.flows[j] = f]
 BadAdded(ev) == {i \in 1..Len(ev.added) : ClsOf(ev, ev.added[i]) \in Unreplayable}
@@ -54,7 +55,7 @@ Clause(m, ev) ==
     [] ev.k = "arrive" -> IF m.fin THEN <<"C53.sent_after_finish">> ELSE <<>>
     [] ev.k = "raised" -> <<"C53.command_raised", ev.op, ev.exc>>
     [] ev.k = "end" ->
-         IF ~m.fin THEN <<"C53.replay_without_outcome">>
+         IF ~m.fin THEN <<"C53.replay_without_outcome", IF m.revcur THEN "reverted_in_flight" ELSE "not_reverted">>
          ELSE IF m.pending # <<>> THEN <<"C53.queued_never_replayed">>
          ELSE <<>>
     [] OTHER -> <<>>
@@ -70,12 +71,13 @@ Upd(m, ev) ==
                              \cup (IF \E i \in 1..Len(ev.added) : ev.bk[i] THEN {"queued_flow_with_backup"} ELSE {})]
     [] ev.k = "stop" ->
          [m EXCEPT !.pending = SelectSeq(@, LAMBDA e : \E i \in 1..Len(ev.left) : ev.left[i] = e[1]),
+                   !.revcur = @ \/ (~m.fin /\ \E i \in 1..Len(ev.cleared) : ev.cleared[i] = m.cur),
                    !.wit = @ \cup (IF ev.cleared # <<>> THEN {"stop_restores"} ELSE {"stop_empty_queue"})
                              \cup (IF ev.cleared # <<>> /\ ~m.fin THEN {"stop_while_in_flight"} ELSE {})
                              \cup (IF \E i \in 1..Len(ev.cleared) : \E j \in 1..Len(m.pending) : m.pending[j][1] = ev.cleared[i] /\ m.pending[j][3]
                                    THEN {"stop_flow_with_backup"} ELSE {})]
     [] Begins(m, ev) ->
-         [m EXCEPT !.cur = ev.f, !.fin = Ends(ev),
+         [m EXCEPT !.cur = ev.f, !.fin = Ends(ev), !.revcur = FALSE,
                    !.pending = IF @ # <<>> /\ @[1][1] = ev.f THEN Tail(@) ELSE @,
                    !.wit = @ \cup (IF m.cur # 0 THEN {"begin_after_previous_finished"} ELSE {"first_begin"})]
     [] Ends(ev) /\ ev.f = m.cur /\ ~m.fin ->
